@@ -46,7 +46,8 @@ def run(ctx):
     for drv in ("parfile", "parblock"):
         for w in (4, 16):
             for rep in range(2 if quick else 5):
-                s2 = dict(many); s2["extra"] = many["extra"] + rnd.choice([[], ["--ownership"], ["--no-perms"], ["--no-timestamps"]])
+                # verbose logging moves the timing inside the library (log writes between "copy done" and "handle released")
+                s2 = dict(many); s2["extra"] = many["extra"] + rnd.choice([[], ["--ownership"], ["--no-perms"], ["--no-timestamps"]]) + (["-vv"] if rep % 2 else [])
                 jobs.append((s2, drv, w, None, rep))
     # --fsync together with every subset of the other finalisation options: the flush must not depend on them
     for drv in ("parfile", "parblock"):
